@@ -88,22 +88,26 @@ def run(ctx: Ctx) -> None:
     ctx.check(not bad, "R-C08.1", "dataflow-obligations(C09)", "guppylang-internals/src/guppylang_internals/cfg/analysis.py",
               {"obligations": len(sub.obligations), "not_ok": [f"{o.rule} {o.key} {o.status}" for o in bad][:6]},
               "the definite/maybe-assignment or liveness results that decide 'not defined' are not the path-based solution")
-    an = idx.method("CFG", "analyze", "guppylang_internals.cfg.cfg")
-    # assigned_somewhere from all blocks
-    asg = [n for n in walk_no_nested(an.node) if isinstance(n, ast.Assign) and any(isinstance(t, ast.Attribute) and t.attr == "assigned_somewhere" for t in n.targets)]
-    ok = False
-    facts = {}
-    if len(asg) == 1:
-        gens = [g for x in ast.walk(asg[0].value) if isinstance(x, (ast.GeneratorExp, ast.SetComp, ast.ListComp)) for g in x.generators]
-        over_bbs = [g for g in gens if ast.unparse(g.iter) == "self.bbs"]
-        facts = {"value": ast.unparse(asg[0].value)[:140], "filters_on_block_loop": [ast.unparse(c) for g in over_bbs for c in g.ifs]}
-        ok = bool(over_bbs) and not any(g.ifs for g in over_bbs) and ".assigned" in facts["value"] and "def_ass_before" in facts["value"]
-    ctx.check(ok, "R-C08.1", f"{an.qualname}#locals-from-all-blocks", an.where, facts,
-              "a name assigned only in statically dead code is not treated as a local: a read of it silently resolves to a global of the same "
-              "name instead of being rejected (Python scoping ignores branch conditions)")
-    stats = [n for n in walk_no_nested(an.node) if isinstance(n, ast.Assign) and dotted(n.targets[0]) == "stats"]
-    ok = len(stats) == 1 and isinstance(stats[0].value, ast.DictComp) and ast.unparse(stats[0].value.generators[0].iter) == "self.bbs" and not stats[0].value.generators[0].ifs
-    ctx.check(ok, "R-C08.1", f"{an.qualname}#stats-for-all-blocks", an.where, {}, "variable statistics are not computed for every block")
+    # CFG.analyze: locals from ALL blocks, statistics for all blocks -- part of the interpreted set-up obligation of C09 (R-C09.4);
+    # the text-shape form below is the fallback when that was not decided
+    analyze_decided = any(o.key.endswith("analyze#sets-up-both-analyses") and o.status in ("ok", "violation") for o in sub.obligations)
+    if not analyze_decided:
+        an = idx.method("CFG", "analyze", "guppylang_internals.cfg.cfg")
+        # assigned_somewhere from all blocks
+        asg = [n for n in walk_no_nested(an.node) if isinstance(n, ast.Assign) and any(isinstance(t, ast.Attribute) and t.attr == "assigned_somewhere" for t in n.targets)]
+        ok = False
+        facts = {}
+        if len(asg) == 1:
+            gens = [g for x in ast.walk(asg[0].value) if isinstance(x, (ast.GeneratorExp, ast.SetComp, ast.ListComp)) for g in x.generators]
+            over_bbs = [g for g in gens if ast.unparse(g.iter) == "self.bbs"]
+            facts = {"value": ast.unparse(asg[0].value)[:140], "filters_on_block_loop": [ast.unparse(c) for g in over_bbs for c in g.ifs]}
+            ok = bool(over_bbs) and not any(g.ifs for g in over_bbs) and ".assigned" in facts["value"] and "def_ass_before" in facts["value"]
+        ctx.check(ok, "R-C08.1", f"{an.qualname}#locals-from-all-blocks", an.where, facts,
+                  "a name assigned only in statically dead code is not treated as a local: a read of it silently resolves to a global of the same "
+                  "name instead of being rejected (Python scoping ignores branch conditions)")
+        stats = [n for n in walk_no_nested(an.node) if isinstance(n, ast.Assign) and dotted(n.targets[0]) == "stats"]
+        ok = len(stats) == 1 and isinstance(stats[0].value, ast.DictComp) and ast.unparse(stats[0].value.generators[0].iter) == "self.bbs" and not stats[0].value.generators[0].ifs
+        ctx.check(ok, "R-C08.1", f"{an.qualname}#stats-for-all-blocks", an.where, {}, "variable statistics are not computed for every block")
     for fn_name, hint in (("check_cfg", CC), ("check_nested_func_def", "guppylang_internals.checker.func_checker"), ("check_modified_block", "guppylang_internals.checker.modifier_checker")):
         f = idx.find_func(fn_name, hint)
         g = CFG(f.node)
